@@ -72,7 +72,7 @@ def absv(kind, x):
     return [-999999, -999999, -999999]
 
 
-def build_parser(shape, *, dcf_patterns=None, default_env=False, exit_on_error=False, parser_mode="yaml"):
+def build_parser(shape, *, dcf_patterns=None, default_env=False, exit_on_error=False, parser_mode="yaml", via_set_defaults=False):
     from typing import Dict, List
 
     from jsonargparse import ActionConfigFile, ArgumentParser
@@ -84,7 +84,12 @@ def build_parser(shape, *, dcf_patterns=None, default_env=False, exit_on_error=F
         from typing import Optional
 
         t = {"int": int, "list": List[int], "dict": Dict[str, int], "str": str, "optint": Optional[int]}[kind]
-        p.add_argument("--" + key, type=t, default=conc(kind, default))
+        if via_set_defaults:
+            p.add_argument("--" + key, type=t)      # the source-code default is given afterwards with set_defaults
+        else:
+            p.add_argument("--" + key, type=t, default=conc(kind, default))
+    if via_set_defaults:
+        p.set_defaults({dest_of(key): conc(kind, default) for key, kind, default in shape})
     return p
 
 
@@ -201,7 +206,7 @@ def run_source_case(case: dict) -> dict:
             os.environ.update(envmap)
         if env_how == 1:
             os.environ["JSONARGPARSE_DEFAULT_ENV"] = "true"
-        parser = build_parser(shape, dcf_patterns=patterns, default_env=(env_how == 0))
+        parser = build_parser(shape, dcf_patterns=patterns, default_env=(env_how == 0), via_set_defaults=(variant % 5 == 4))
         kw = {"env": True} if env_how == 2 else {}
         try:
             if method == "args":
